@@ -65,8 +65,8 @@ def run_step(ctx, kernel, u, logl0, logl_prop, beta, ms, sigma, draws, periodic,
                     overrides={"nan_to_num": lambda a, nan=0.0, **k: a})
     noadapt = lambda self, c, mean_accept: None
     sig = lambda self: sarr([sigma])
-    with patched(mcmc, np=proxy), patched_attr(mcmc.TPCNRunner, _adapt_sigma=noadapt, _initialize_sigmas=sig), \
-            patched_attr(mcmc.RWMRunner, _adapt_sigma=noadapt, _initialize_sigmas=sig):
+    with patched(mcmc, np=proxy), patched_attr(mcmc.TPCNRunner, _adapt_sigma=noadapt, _initialize_sigmas=sig, _check_convergence=lambda self, acc: True), \
+            patched_attr(mcmc.RWMRunner, _adapt_sigma=noadapt, _initialize_sigmas=sig, _check_convergence=lambda self, acc: True):
         out = mcmc.parallel_mcmc(u=sarr([u]), x=sarr([u]), logl=sarr([logl0]), blobs=None, assignments=np.zeros(1, dtype=int),
                                  beta=float(beta), mode_stats=ms, log_likelihood=cb.log_likelihood, prior_transform=cb.prior_transform,
                                  n_steps=1, n_max=1, sample=kernel, periodic=periodic, reflective=reflective, verbose=False)
@@ -210,7 +210,7 @@ def make_kernel(kernel, d, bkind, beta, nu=None, wraps=1, skip_ratio=False):
                       bounds=f"d={d}, K=1, one walker, one step, boundary kind {bkind} on coordinate 0, beta={beta}, nu={nu}, symbolic sigma in (0,1), "
                              "symbolic mode (mu, Cholesky factor), all draws symbolic; a second proposal draw is reported, not followed; wrap count |k| <= " + str(wraps),
                       stubs=["np.random.gamma/randn/rand -> symbolic draws with recorded call parameters", "np.log/np.exp -> exact log-domain algebra",
-                             "_adapt_sigma -> no-op, _initialize_sigmas -> symbolic sigma", "np.sqrt -> fresh r>=0 with r*r==x (cached per radicand)"],
+                             "_adapt_sigma -> no-op, _check_convergence -> True (one iteration), _initialize_sigmas -> symbolic sigma", "np.sqrt -> fresh r>=0 with r*r==x (cached per radicand)"],
                       theory="QF_NRA", timeout_ms=8000, max_paths=4000, allow_domain="division by zero paths are outside the declared positive domains",
                       allow_bound=(f"unwrapped proposals with integer part outside [-{wraps},{wraps}] are cut" if bkind in ("periodic", "reflective") else None))
 
